@@ -74,4 +74,146 @@ Proof.
   destruct b0; cbn [negb]; [apply IH | reflexivity].
 Qed.
 
+
+Lemma multi_files_shape base dir name enc files (g : list (val * val)) :
+  (exists g' b, multi_files fo W base dir name enc files g = XDone (VDict g', VBool b)) \/
+  (exists e, multi_files fo W base dir name enc files g = XFail e).
+Proof.
+  revert g. induction files as [|f r IH]; intros g; cbn [multi_files]; [left; now exists g, true|].
+  unfold multi_step. destruct (w_load_from_file W [] (w_path_join W [base; dir; f]) enc) as [[its [|]]|e].
+  - apply IH.
+  - left. eexists _, false. reflexivity.
+  - right. now eexists.
+Qed.
+
+(* ---- the skip_case loop: any body that does to one file name what Loader2Model.caps_files does *)
+Lemma caps_loop_gen name (body : val -> val -> lctl (xres (val * val)) val) (k : val -> xres (val * val)) :
+  (forall file g, body (VStr file) (VDict g) =
+                  match w_pint W (stem file) with
+                  | Some n => LCont (VDict (dput (VStr (name ++ stem file)) (val_of_items [lower_group fo n]) g))
+                  | None => LRet (XFail (XBase EValue))
+                  end) ->
+  forall files g,
+  rt_for (map VStr files) body (VDict g) rt_no_else k =
+  match caps_files fo W name files g with
+  | XDone g' => k (VDict g')
+  | XFail e => XFail e
+  end.
+Proof.
+  intros HB. induction files as [|file r IH]; intros g; cbn [map rt_for caps_files]; [reflexivity|].
+  rewrite HB. destruct (w_pint W (stem file)) as [n|]; [apply IH | reflexivity].
+Qed.
+
+(* ---- the comprehension that gives every OMEN level its own group *)
+Lemma split_comp (its : list (rt_item (F fo))) :
+  xthen (dy_iter (val_of_items its)) (fun l1 =>
+    xthen (x_concat (x_mapM (fun v_group : val =>
+             xthen (dy_getitem (w_cfg W) v_group (VStr k_values)) (fun t52 =>
+             xthen (dy_iter t52) (fun l2 =>
+               x_mapM (fun v_level : val =>
+                  xthen (dy_getitem (w_cfg W) v_group (VStr k_prob)) (fun t53 =>
+                  XDone (VDict [(VStr k_values, VList [v_level]); (VStr k_prob, t53)]))) l2))) l1))
+          (fun r => XDone (VList r))) =
+  XDone (val_of_items (split_levels fo its)).
+Proof.
+  unfold val_of_items at 1. cbn [dy_iter xthen].
+  assert (H : x_mapM (fun v_group : val =>
+             xthen (dy_getitem (w_cfg W) v_group (VStr k_values)) (fun t52 =>
+             xthen (dy_iter t52) (fun l2 =>
+               x_mapM (fun v_level : val =>
+                  xthen (dy_getitem (w_cfg W) v_group (VStr k_prob)) (fun t53 =>
+                  XDone (VDict [(VStr k_values, VList [v_level]); (VStr k_prob, t53)]))) l2)))
+            (map val_of_item its) =
+          XDone (map (fun it => map (fun v => @val_of_item (F fo) C SS {| it_values := [v]; it_prob := it_prob it |}) (it_values it)) its)).
+  { induction its as [|it r IH]; cbn [map x_mapM]; [reflexivity|].
+    unfold val_of_item at 1. erewrite getitem_dict_found by reflexivity. cbn [xthen dy_iter].
+    assert (Hin : forall vs, x_mapM (fun v_level : val =>
+                  xthen (dy_getitem (w_cfg W) (val_of_item it) (VStr k_prob))
+                        (fun t53 => XDone (VDict [(VStr k_values, VList [v_level]); (VStr k_prob, t53)]))) (map VStr vs) =
+                XDone (map (fun v => @val_of_item (F fo) C SS {| it_values := [v]; it_prob := it_prob it |}) vs)).
+    { induction vs as [|v vs IHv]; cbn [map x_mapM]; [reflexivity|].
+      unfold val_of_item at 1. erewrite getitem_dict_found by reflexivity. cbn [xthen]. rewrite IHv. reflexivity. }
+    rewrite Hin. cbn [xthen]. rewrite IH. reflexivity. }
+  rewrite H. unfold x_concat. cbn [xthen]. unfold val_of_items, split_levels. rewrite flat_map_concat_map, concat_map, !map_map.
+  do 3 f_equal. apply map_ext. intros it. now rewrite map_map.
+Qed.
+
+Lemma single_file_call (path enc : pstr) (k1 : val -> val -> xres (val * val)) :
+  xbind (call_load_from_file (w_load_from_file W) (VList []) (VStr path) (VStr enc)) (fun e => XFail e)
+        (fun '(o, t) => k1 o t) =
+  match w_load_from_file W [] path enc with
+  | Done (its, b) => k1 (val_of_items its) (VBool b)
+  | Fail e => XFail (XBase e)
+  end.
+Proof.
+  unfold call_load_from_file. cbn [items_of_val items_of_vals].
+  destruct (w_load_from_file W [] path enc) as [[its b]|e]; reflexivity.
+Qed.
+
+Ltac section_stage Hsec :=
+  cbn [dy_getitem]; let s := fresh "s" in let Hs := fresh "Hs" in let Hwf := fresh "Hwf" in
+  destruct Hsec as (s & Hs & Hwf); rewrite Hs; cbn [xthen xbind];
+  rewrite (load_from_multiple_files_eq _ _ _ _ _ _ _ Hwf);
+  match goal with |- context [multi_files fo W ?a ?b ?c ?d ?e ?f] =>
+    let g1 := fresh "g" in let b1 := fresh "b" in let e1 := fresh "e" in let E := fresh "E" in
+    destruct (multi_files_shape a b c d e f) as [(g1 & b1 & E)|(e1 & E)]; rewrite !E;
+    cbn [xbind then_load dy_truth]; [destruct b1; cbn [negb]; [ | reflexivity] | reflexivity]
+  end.
+
+Ltac file_stage :=
+  cbn [dy_path_join strs_of option_map xbind dy_setitem is_key];
+  erewrite getitem_dict_found by (try reflexivity; apply dfind_dput_same; reflexivity);
+  cbn [xbind]; rewrite single_file_call; unfold single_file at 1; unfold pstr in *;
+  match goal with |- context [w_load_from_file W ?a ?b ?c] =>
+    let its := fresh "its" in let b1 := fresh "b" in let e1 := fresh "e" in
+    destruct (w_load_from_file W a b c) as [[its b1]|e1] end; cbn [then_load]; [|reflexivity];
+  erewrite upd_item_found by (try reflexivity; apply dfind_dput_same; reflexivity);
+  cbn [xthen xbind dy_truth]; rewrite ?dput_dput_same by reflexivity.
+
+(* ---- _load_terminals *)
+Theorem load_terminals_eq (c : C) (v : cfg_view) (ri g0 : list (val * val)) base enc skip :
+  dfind (VStr k_encoding) ri = Some (VStr enc) -> cfg_view_ok fo W c v ->
+  py_load_terminals fo W (VDict ri) (VDict g0) (VStr base) (VCfg c) (VBool skip) =
+  terminals fo W v base enc skip g0.
+Proof.
+  intros Hri (HA & HCAP & HD & HO & HK & HY & HX).
+  cbv beta zeta delta [py_load_terminals]. name_gkeys. unfold terminals, multi.
+  erewrite getitem_dict_found by (try reflexivity; exact Hri). cbn [xbind].
+  section_stage HA.
+  cbn [dy_truth xbind rt_join].
+  destruct skip; cbn [negb].
+  - (* skip_case: the all-lower groups *)
+    cbn [dy_getitem]. destruct HCAP as (sC & HsC & HwfC). rewrite HsC. cbn [xthen xbind dy_get1].
+    destruct HwfC as (HdC & HnC & text & HtC & HjC). rewrite HtC. cbn [xthen xbind dy_json_loads]. rewrite HjC.
+    cbn [xbind dy_iter].
+    change [76]%N with k_L.
+    rewrite HnC. cbn [xthen xbind]. unfold rt_join.
+    match goal with |- context [rt_for (map VStr ?files) ?body (VDict ?g0) rt_no_else ?k0] =>
+      rewrite (caps_loop_gen (snd (fst (cv_CAP v))) body k0)
+    end.
+    2:{ intros file g1. cbn [dy_split xbind xthen]. destruct (split_stem file) as (rest & Es). rewrite Es. cbn [map].
+        rewrite !getitem_0. cbn [xbind dy_add dy_int x_opt xthen].
+        destruct (w_pint W (stem file)) as [n|]; cbn [x_opt xthen xbind]; [|reflexivity].
+        cbn [dy_mul xbind dy_setitem is_key]. reflexivity. }
+    destruct (caps_files fo W (snd (fst (cv_CAP v))) (snd (cv_CAP v)) g) as [g2|e2]; cbn [then_load]; [|reflexivity].
+    cbv beta.
+    section_stage HD. section_stage HO. section_stage HK. section_stage HY. section_stage HX.
+    name_gkeys. file_stage.
+    destruct b; cbn [negb]; [|reflexivity].
+    erewrite getitem_dict_found by (try reflexivity; apply dfind_dput_same; reflexivity). cbn [xbind].
+    rewrite split_comp. cbn [xbind dy_setitem is_key]. rewrite dput_dput_same by reflexivity.
+    change [77]%N with k_M. change [69]%N with k_E. change [87]%N with k_W.
+    file_stage. destruct b; cbn [negb]; [|reflexivity].
+    file_stage. destruct b; cbn [negb]; reflexivity.
+  - unfold rt_join. section_stage HCAP.
+    section_stage HD. section_stage HO. section_stage HK. section_stage HY. section_stage HX.
+    name_gkeys. file_stage.
+    destruct b; cbn [negb]; [|reflexivity].
+    erewrite getitem_dict_found by (try reflexivity; apply dfind_dput_same; reflexivity). cbn [xbind].
+    rewrite split_comp. cbn [xbind dy_setitem is_key]. rewrite dput_dput_same by reflexivity.
+    change [77]%N with k_M. change [69]%N with k_E. change [87]%N with k_W.
+    file_stage. destruct b; cbn [negb]; [|reflexivity].
+    file_stage. destruct b; cbn [negb]; reflexivity.
+Qed.
+
 End Guesser.
